@@ -26,6 +26,12 @@ theorem updRefsField_mem {id : Nat} {c : Cls} {f : Nat} {orig new : List Nat}
     e ∈ r'.1 ↔ (e ∈ r.1 ∧ ¬(e.src = id ∧ e.cls = c ∧ e.field = f ∧ e.tgt ∈ orig ∧ e.tgt ∉ new))
       ∨ (e.src = id ∧ e.cls = c ∧ e.field = f ∧ e.tgt ∈ new ∧ e.tgt ∉ orig) := by
   unfold updRefsField at h
+  split at h
+  · rename_i hemp
+    injection h with h
+    subst h
+    simp only [Bool.and_eq_true, List.isEmpty_iff] at hemp
+    simp [hemp.1, hemp.2]
   simp only at h
   split at h
   · injection h with h
